@@ -354,7 +354,7 @@ func createAllIndexes(
 		// seal the indexes
 		wg.Go(func() error {
 			klog.Infof("Sealing cid_to_offset_and_size index...")
-			err = cid_to_offset_and_size.Seal(ctx, indexDir)
+			err := cid_to_offset_and_size.Seal(ctx, indexDir) // a variable of its own: the five sealing goroutines used to share (and race on) the outer err
 			if err != nil {
 				return fmt.Errorf("failed to seal cid_to_offset_and_size index: %w", err)
 			}
@@ -365,7 +365,7 @@ func createAllIndexes(
 
 		wg.Go(func() error {
 			klog.Infof("Sealing slot_to_cid index...")
-			err = slot_to_cid.Seal(ctx, indexDir)
+			err := slot_to_cid.Seal(ctx, indexDir)
 			if err != nil {
 				return fmt.Errorf("failed to seal slot_to_cid index: %w", err)
 			}
@@ -376,7 +376,7 @@ func createAllIndexes(
 
 		wg.Go(func() error {
 			klog.Infof("Sealing sig_to_cid index...")
-			err = sig_to_cid.Seal(ctx, indexDir)
+			err := sig_to_cid.Seal(ctx, indexDir)
 			if err != nil {
 				return fmt.Errorf("failed to seal sig_to_cid index: %w", err)
 			}
@@ -397,7 +397,7 @@ func createAllIndexes(
 			if err := meta.AddString(indexmeta.MetadataKey_Network, string(network)); err != nil {
 				return fmt.Errorf("failed to add network to sig_exists index metadata: %w", err)
 			}
-			if _, err = sig_exists.Seal(meta); err != nil {
+			if _, err := sig_exists.Seal(meta); err != nil {
 				return fmt.Errorf("failed to seal sig_exists index: %w", err)
 			}
 			klog.Infof("Successfully sealed sig_exists index: %s", paths.SignatureExists)
